@@ -101,6 +101,19 @@ def coiter (style : Style) (parts : List (Cur κ)) : Fib κ (List (Cur κ)) :=
 
 def isPart (v : Nat) (c : Cur κ) : Bool := c.ranks.head? == some v
 
+/-- inside the loop body every participant's name is bound to the payload the co-iteration
+    delivered for it (`subs`, in participant order); the other operands keep their cursor.
+    Operand positions are kept, so the first participant of an inner loop (the leader of a
+    leader-follower intersection) is the first one in the program's operand order. -/
+def place (v : Nat) : List (Cur κ) → List (Cur κ) → List (Cur κ)
+  | [], _ => []
+  | c :: cs, subs =>
+    if isPart v c then
+      match subs with
+      | s :: ss => s :: place v cs ss
+      | [] => place v cs []
+    else c :: place v cs subs
+
 /-- the loop nest.  `order` = loop variables outermost first, `ops` = operand cursors,
     `zr` / `z` = the output's remaining ranks and the (sub-tree of the) output reached -/
 def run (style : Style) : List Nat → List (Cur κ) → (zr : List Nat) → Tree κ Int zr.length → Tree κ Int zr.length
@@ -109,16 +122,16 @@ def run (style : Style) : List Nat → List (Cur κ) → (zr : List Nat) → Tre
   | v :: rest, ops, [], z =>
     (coiter style (ops.filter (isPart v))).foldl
       (fun (acc : Tree κ Int ([] : List Nat).length) r =>
-        run style rest (r.2 ++ ops.filter (fun c => !isPart v c)) [] acc) z
+        run style rest (place v ops r.2) [] acc) z
   | v :: rest, ops, zv :: zr, z =>
     if zv = v then
       (populate (0 : Int) zr.length
-        (fun _ cur (subs : List (Cur κ)) => run style rest (subs ++ ops.filter (fun c => !isPart v c)) zr cur)
+        (fun _ cur (subs : List (Cur κ)) => run style rest (place v ops subs) zr cur)
         (show Tree κ Int (zr.length + 1) from z) (coiter style (ops.filter (isPart v)))).1
     else
       (coiter style (ops.filter (isPart v))).foldl
         (fun (acc : Tree κ Int (zv :: zr).length) r =>
-          run style rest (r.2 ++ ops.filter (fun c => !isPart v c)) (zv :: zr) acc) z
+          run style rest (place v ops r.2) (zv :: zr) acc) z
 
 /-! ### the dense side -/
 
